@@ -1,4 +1,4 @@
-import PoseVerif.Model.Collate
+import PoseVerif.Proofs.C20Lemmas
 /-!
 # C20 — batch collation pads without altering or unmasking anything
 
@@ -7,23 +7,6 @@ Parametric in the element type `S` (no arithmetic is involved at all): values ar
 namespace PoseVerif.Props.C20
 open PoseVerif
 variable {S : Type}
-
-/-- an example fit for collation: not 0-d, mask of the tensor's shape, as many elements as the shape says -/
-structure Ok (trail : List Nat) (x : MT S) : Prop where
-  shape : ∃ l, x.tensor.shape = l :: trail
-  mask : x.mask.shape = x.tensor.shape
-  tlen : x.tensor.data.length = x.tensor.shape.headD 0 * numel trail
-  mlen : x.mask.data.length = x.tensor.shape.headD 0 * numel trail
-
-theorem le_maxList (l : List Nat) (x : Nat) (h : x ∈ l) : x ≤ maxList l := by
-  induction l with
-  | nil => cases h
-  | cons y ys ih =>
-    simp only [maxList]
-    rcases List.mem_cons.mp h with rfl | h
-    · omega
-    · have := ih h; omega
-
 theorem padData_length {α : Type} (d : List α) (len maxLen inner : Nat) (pad : α) (hd : d.length = len * inner) (hl : len ≤ maxLen) :
     (padData d len maxLen inner pad).length = maxLen * inner := by
   simp only [padData, List.length_append, List.length_replicate, hd, ← Nat.add_mul]
@@ -38,21 +21,6 @@ theorem padData_prefix {α : Type} (d : List α) (len maxLen inner : Nat) (pad :
 theorem padData_padding {α : Type} (d : List α) (len maxLen inner : Nat) (pad : α) (hd : d.length = len * inner) :
     (padData d len maxLen inner pad).drop (len * inner) = List.replicate ((maxLen - len) * inner) pad := by
   simp [padData, ← hd]
-
-/-- rows of equal length: block `e` of the concatenation is row `e` -/
-theorem flatten_block {α : Type} (rows : List (List α)) (n : Nat) (h : ∀ r ∈ rows, r.length = n) (e : Nat) (he : e < rows.length) :
-    (rows.flatten.drop (e * n)).take n = rows[e] := by
-  induction rows generalizing e with
-  | nil => simp at he
-  | cons r rs ih =>
-    have hr : r.length = n := h r (by simp)
-    cases e with
-    | zero => simp [List.take_append_of_le_length, hr]
-    | succ e =>
-      simp only [List.flatten_cons, List.getElem_cons_succ]
-      have : (e + 1) * n = r.length + e * n := by rw [hr]; rw [Nat.add_mul]; omega
-      rw [this, ← List.drop_drop, List.drop_left]
-      exact ih (fun r' hr' => h r' (by simp [hr'])) e (by simpa using he)
 
 /-- **`pad_tensors`**: for a batch of examples with a common trailing shape, the result has shape `(batch, longest length, trailing…)` for values and validity alike,
     and row `e` is example `e`'s values / validity followed by the pad value / `False`. -/
@@ -127,10 +95,6 @@ theorem collate_masked_field (pad : S) (fuel : Nat) (x : MT S) (xs : List (MT S)
   simp only [List.map_cons] at this ⊢
   simp [collateTensors, this]
 
-/-! non-vacuity: lengths {2, 0, 1} with one trailing axis of extent 2, pad value 9 -/
-def ex1 : MT Nat := ⟨⟨[2, 2], [1, 2, 3, 4]⟩, ⟨[2, 2], [true, false, true, true]⟩⟩
-def ex2 : MT Nat := ⟨⟨[0, 2], []⟩, ⟨[0, 2], []⟩⟩
-def ex3 : MT Nat := ⟨⟨[1, 2], [5, 6]⟩, ⟨[1, 2], [false, true]⟩⟩
 example : (padMasked [ex1, ex2, ex3] 9).map (fun r => (r.tensor.shape, r.tensor.data, r.mask.data)) =
     some ([3, 2, 2], [1, 2, 3, 4, 9, 9, 9, 9, 5, 6, 9, 9], [true, false, true, true, false, false, false, false, false, true, false, false]) := by decide
 
